@@ -287,7 +287,7 @@ def run_shard(spec, emit):
         budget_s, random_cap = 35.0, 400_000
     else:
         ids, statuses = [1, 2, 11, "1"], [200, 204, 302, 400, 403, 404, 500]
-        budget_s, random_cap = 600.0, 20_000_000
+        budget_s, random_cap = 150.0, 20_000_000
     alphabet = node_alphabet(ids, statuses)
     started = time.monotonic()
     n = 0
